@@ -54,6 +54,12 @@ EXTRA_PROGRAMS = [
     # 7cb9d46 an error raised inside a std function body (span of std.prql)
     "from t | derive {x = (math.round \"a\" b)} | select {y = (text.length 1 2)}",
     "from t | window rolling:a (derive {s = sum b})",
+    # d92afac / 7f02b48 names resolved relative to the enclosing modules (the slices path[..n] of resolve_ident)
+    "module a { module b { let x = (from t | take 2)\n let y = (from x | derive {k = 1}) } }\nfrom a.b.y",
+    "module a { let k = 5\n module b { module c { let f = z -> z + k\n let r = (from t | derive {w = f 1}) } } }\nfrom a.b.c.r",
+    "module a { module b { let r = (from nope.t | select {q = missing}) } }\nfrom a.b.r | join that (==q)",
+    # 006e33c a bare `that` where a value is required
+    "from t | derive {x = that} | filter that.a > 1",
 ]
 
 TOKEN_RE = re.compile(r"[A-Za-z_][A-Za-z_0-9]*|\d+(?:\.\d+)?|\s+|==|!=|>=|<=|~=|&&|\|\||\?\?|//|\*\*|->|=>|\.\.|.", re.S)
